@@ -212,51 +212,56 @@ def run_kani(names, timeout_s, jobs=8, unwind=None, extra_cbmc=(), target="kani-
 TAG = re.compile(r"^(C\d\d)\b")
 
 
-def run_group(res, prop, prefixes, tier, expected_panics=(), jobs=8, timeout_s=None, also_tags=(), single_query=True):
-    """Runs every harness whose name starts with one of `prefixes` (quick: `<p>q_`, thorough: `<p>q_` and `<p>t_`).
+def run_group(res, prop, prefixes, tier, expected_panics=(), jobs=6, timeout_s=None, also_tags=(), single_query=True):
+    """Runs every harness whose name starts with one of `prefixes` followed by the tier letter:
+         quick    : `<p>q_`                      (light harnesses: <= 8 GB, <= 150 s of CBMC each, `jobs` in parallel)
+         thorough : `<p>q_`, `<p>t_` in parallel, then `<p>x_` ONE AT A TIME (25-37 GB and 7-10 minutes each).
     Fills `res` (violations are only *candidates* here: the caller replays them) and returns a coverage fragment."""
-    pf = []
-    for p in prefixes:
-        pf.append(p + "q_")
-        if tier == "thorough":
-            pf.append(p + "t_")
-    names = select(pf)
-    if not names:
-        res.inconclusive.append("no harness selected for %r" % (prefixes,))
-        return {"harnesses": []}
-    if timeout_s is None:
-        timeout_s = 1500 if tier == "quick" else 5400
-    short = [n.split("::")[-1] for n in names]
-    out, wall, timed_out, log = run_kani(names, timeout_s, jobs=jobs, harness_timeout=timeout_s - 60, single_query=single_query)
-    if "error: could not compile" in out or "Failed to execute cargo" in out or "error[E" in out:
-        res.inconclusive.append("the harness crate does not compile against /repo's working tree (see %s): %s" % (
-            log, " | ".join(re.findall(r"^error[^\n]*", out, re.M)[:3])))
-        return {"harnesses": short, "log": log}
-    results = parse(out, names)
+    groups = [([p + "q_" for p in prefixes] + ([p + "t_" for p in prefixes] if tier == "thorough" else []), jobs)]
+    if tier == "thorough":
+        groups.append(([p + "x_" for p in prefixes], 1))
     frag = {"mode": "one SAT query per harness (--stop-on-fail, no reachability instrumentation)" if single_query else
             "one SAT query per property, reachability witnesses (kani::cover) on",
-            "harnesses": [], "checks_discharged": 0, "covers_satisfied": 0, "kani_wall_s": round(wall, 1), "log": log}
-    candidates = []
-    for n in names:
-        r = results[n]
-        frag["harnesses"].append({"name": n, "status": r.status, "checks": r.checks, "covers": "%d/%d" % (r.covers_sat, r.covers_total),
-                                  "cbmc_s": r.time_s, "failed": r.failed[:4], "notes": r.notes[:4]})
-        frag["checks_discharged"] += r.checks - len(r.failed)
-        frag["covers_satisfied"] += r.covers_sat
-        if r.status in ("missing", "inconclusive") or (timed_out and r.status != "pass" and r.status != "fail"):
-            res.inconclusive.append("%s: %s" % (n, "; ".join(r.notes) or "no result (time-out?)"))
+            "harnesses": [], "checks_discharged": 0, "covers_satisfied": 0, "kani_wall_s": 0.0, "logs": [], "candidates": []}
+    any_selected = False
+    for pf, j in groups:
+        names = select(pf)
+        if not names:
             continue
-        for d in r.failed:
-            if d.startswith("UNWIND:"):
-                res.inconclusive.append("%s: unwinding bound too small: %s" % (n, d))
-            elif d.startswith("HARNESS:"):
-                res.inconclusive.append("%s: %s" % (n, d))
-            elif any(e in d for e in expected_panics):
-                pass
-            else:
-                candidates.append((n, d))
-        if r.covers_total and r.covers_sat < r.covers_total and not r.failed:
-            res.inconclusive.append("%s: %d of %d reachability witnesses not satisfied: %s" % (
-                n, r.covers_total - r.covers_sat, r.covers_total, "; ".join(r.notes[:3])))
-    frag["candidates"] = candidates
+        any_selected = True
+        t_budget = timeout_s if timeout_s is not None else (1800 if tier == "quick" else 7200)
+        if j == 1:
+            t_budget = max(t_budget, 1000 * len(names))
+        out, wall, timed_out, log = run_kani(names, t_budget, jobs=j, harness_timeout=(900 if j > 1 else 1500), single_query=single_query,
+                                             target="kani-target")
+        frag["kani_wall_s"] = round(frag["kani_wall_s"] + wall, 1)
+        frag["logs"].append(log)
+        if "error: could not compile" in out or "Failed to execute cargo" in out or "error[E" in out:
+            res.inconclusive.append("the harness crate does not compile against /repo's working tree (see %s): %s" % (
+                log, " | ".join(re.findall(r"^error[^\n]*", out, re.M)[:3])))
+            continue
+        results = parse(out, names)
+        for n in names:
+            r = results[n]
+            frag["harnesses"].append({"name": n, "status": r.status, "checks": r.checks, "covers": "%d/%d" % (r.covers_sat, r.covers_total),
+                                      "cbmc_s": r.time_s, "failed": r.failed[:4], "notes": r.notes[:4]})
+            frag["checks_discharged"] += max(0, r.checks - len(r.failed))
+            frag["covers_satisfied"] += r.covers_sat
+            if r.status in ("missing", "inconclusive"):
+                res.inconclusive.append("%s: %s" % (n, "; ".join(r.notes) or "no result (time-out?)"))
+                continue
+            for d in r.failed:
+                if d.startswith("UNWIND:"):
+                    res.inconclusive.append("%s: unwinding bound too small: %s" % (n, d))
+                elif d.startswith("HARNESS:"):
+                    res.inconclusive.append("%s: %s" % (n, d))
+                elif any(e in d for e in expected_panics):
+                    pass
+                else:
+                    frag["candidates"].append((n, d))
+            if r.covers_total and r.covers_sat < r.covers_total and not r.failed:
+                res.inconclusive.append("%s: %d of %d reachability witnesses not satisfied: %s" % (
+                    n, r.covers_total - r.covers_sat, r.covers_total, "; ".join(r.notes[:3])))
+    if not any_selected:
+        res.inconclusive.append("no harness selected for %r" % (prefixes,))
     return frag
